@@ -75,6 +75,9 @@ func Print(g *Grammar, o PrintOpts) string {
 		b.WriteString("}\n\n")
 	}
 	for i, r := range g.Rules {
+		if i > 0 && r.Name == g.Decoy {
+			b.WriteString(r.Name + " = \"decoy\" [0-9]\n\n")
+		}
 		b.WriteString(r.Name)
 		if r.Display != "" {
 			b.WriteString(" " + strconv.Quote(r.Display))
